@@ -65,9 +65,11 @@ func sattrOf(op *Op) nt.Sattr3 {
 
 // doOp performs op through api and normalises the reply.
 func doOp(api API, op *Op) *Res {
-	atomic.AddInt64(&rpcsOutstanding, 1)
-	mon.NoteRPC()
-	defer atomic.AddInt64(&rpcsOutstanding, -1)
+	if !raceMode {
+		atomic.AddInt64(&rpcsOutstanding, 1)
+		mon.NoteRPC()
+		defer atomic.AddInt64(&rpcsOutstanding, -1)
+	}
 	r := &Res{}
 	switch op.K {
 	case OpNull:
@@ -441,7 +443,7 @@ func startWatchdog() {
 		for {
 			time.Sleep(5 * time.Second)
 			cur := atomic.LoadUint64(&progressCtr)
-			if atomic.LoadInt64(&rpcsOutstanding) > 0 && cur == last {
+			if atomic.LoadInt64(&rpcsOutstanding) > 0 && cur == last && !raceMode {
 				still++
 			} else {
 				still = 0
